@@ -77,6 +77,7 @@ def run(rep, tier):
     pairpos(rep, c)
     linestop(rep, c)
     gutter(rep, c)
+    marker(rep, c)
 
 
 # ------------------------------------------------------------------ CHECKED
@@ -560,3 +561,70 @@ def gutter(rep, c):
                             "the gutter width is derived from one end of the span location only: when the other line "
                             "number has more digits (a span from line 9 to line 10) the rows of the rendering are "
                             "indented by different amounts and the marker is no longer under the reported column")
+
+
+# ------------------------------------------------------------------ MARKER
+
+def marker(rep, c):
+    r = rep.rule("C10.MARKER", 1,
+                 "in the function that draws the marker row, the column the marker starts under is the reported start "
+                 "column unless the end column is strictly smaller: every write to that column is dominated by a "
+                 "comparison with the end column that is false for start <= end (start and end are only compared, so "
+                 "the three orderings <, =, > are all the cases there are)")
+    cands = []
+    for b in c.bodies:
+        if b.get("impl_self") != "pest::error::Error" or b.get("body") is None or b.get("exp") or b.get("impl_trait"):
+            continue
+        if any(kind(x) == "Lit" and x.get("v") in ("^", "'^'") for x in walk(b["body"])) and \
+                any(kind(x) in ("Call", "MethodCall") and str(callee(x)).endswith("Error::<R>::start") or
+                    (kind(x) == "MethodCall" and x.get("m") == "start") for x in walk(b["body"])):
+            cands.append(b)
+    if not cands:
+        r.lost("the marker-row function of pest::error::Error (pushes '^', reads self.start())")
+        return
+    for b in cands:
+        lets = hirq.lets(b["body"])
+        modes = hirq.binding_modes(b)
+        ctx = hirq.Ctx(b)
+        # the mutable local holding the start column
+        cols = [lid for lid, (init, st) in lets.items() if init is not None and modes.get(lid) and any(
+            kind(x) == "MethodCall" and x.get("m") == "start" or (kind(x) == "Call" and str(callee(x)).endswith("::start"))
+            for x in walk(init))]
+        if not cols:
+            r.instance(b["name"] + ":immutable", where(b["body"]), "the start column is never rewritten")
+            continue
+        col = cols[0]
+        writes = []
+        for x in walk(b["body"]):
+            if kind(x) in ("Assign", "AssignOp") and hirq.local_id(x["l"]) == col:
+                writes.append(x)
+            if kind(x) == "AddrOf" and x.get("mut") and hirq.local_id(x["e"]) == col:
+                writes.append(x)
+        for w in writes:
+            key = "%s:%s" % (b["name"], kind(w))
+            r.instance(key, where(w), hirq.expr_text(w)[:40])
+            strict = False
+            for g in ctx.guards(w):
+                if not (g[0] == "if" and g[2] is True or g[0] == "guard"):
+                    continue
+                stack = [g[1]]
+                while stack:
+                    cnd = peel(stack.pop())
+                    d = 0
+                    while d < 3 and kind(cnd) == "Path" and cnd.get("res") == "local" and cnd["id"] in lets and not modes.get(cnd["id"]):
+                        cnd = peel(lets[cnd["id"]][0])
+                        d += 1
+                    if kind(cnd) == "Binary" and cnd["op"] == "&&":
+                        stack += [cnd["l"], cnd["r"]]
+                        continue
+                    if kind(cnd) == "Binary" and cnd["op"] in ("<", ">"):
+                        l, rr, op = peel(cnd["l"]), peel(cnd["r"]), cnd["op"]
+                        if op == "<":
+                            l, rr, op = rr, l, ">"
+                        if hirq.local_id(l) == col and hirq.local_id(rr) is not None and hirq.local_id(rr) != col:
+                            strict = True
+            if not strict:
+                r.violation(key, where(w),
+                            "%s rewrites the marker's start column under a test that can hold when start <= end (it is "
+                            "not a strict `start > end`): for a span whose end column equals its start column (an empty "
+                            "span) the marker is moved left of the reported column" % b["name"])
